@@ -79,7 +79,11 @@ def write_programs(programs, path, limit=None, seed=1):
     with open(path, "w") as f:
         for n, i in enumerate(idx):
             p = programs[i]
-            f.write(json.dumps({"pid": n, "par": p["par"], "ops": p["ops"]}, separators=(",", ":")) + "\n")
+            # the survivors are dropped in a seeded random order (all drop orders within a
+            # program are explored by the model itself: `drop` is enabled for every handle)
+            order = list(range(1, len(p["ops"]) + 2))
+            rnd.shuffle(order)
+            f.write(json.dumps({"pid": n, "par": p["par"], "ops": p["ops"], "drop_order": order}, separators=(",", ":")) + "\n")
             preds.append(p["pred"])
     return preds
 
